@@ -45,6 +45,9 @@ AbClause(e) ==
           ELSE IF IsNone(x) THEN (IF e.z = 0 /\ e.a = 1 THEN (IF Close(e.abundance.v, FromInt(100), -14) THEN "ok" ELSE "NeutronAbundance")
                                   ELSE IF IsZero(e.abundance.v) THEN "ok" ELSE "AbsentIsotopeHasZeroAbundance")
           ELSE IF ~Close(Mul(e.abundance.v, x.total), Mul(FromInt(100), UncValue(x.n)), -13) THEN "AbundanceIsTableEntry"
+          \* its uncertainty is the notation's (value(unc), or (high-low)/sqrt(12) for a range), on the same percent scale
+          ELSE IF "abundance_unc" \in DOMAIN e /\ (e.abundance_unc.k # "num" \/ ~UncOK(DivInt(Mul(e.abundance_unc.v, x.total), 100, 14), x.n))
+               THEN "AbundanceUncertaintyIsTableEntry"
           ELSE "ok"
 DensClause(e) ==
   LET d == IF e.z \in DOMAIN dens THEN dens[e.z] ELSE NoVal
